@@ -70,6 +70,17 @@ def gen_mod(rng, depth, st, attr, made=None, hook=None):
     return m
 
 
+def sibling_mods(rng, st):
+    """hooked sub-modules that sit beside a nested one and are visited before it (members are walked in name order): how deep a
+    module is depends on its ancestors, not on how many siblings were searched before it"""
+    out = []
+    for i in range(rng.choice([0, 0, 1, 2, 3])):
+        m = {'k': 'mod', 'attr': 'aa_side%d' % i, 'mid': st.newm(), 'hook': 'True', 'members': []}
+        st.mods[m['mid']] = m
+        out.append(m)
+    return out
+
+
 def gen_lookup(rng):
     st = St()
     tops = []
@@ -84,7 +95,7 @@ def gen_lookup(rng):
         for j in range(d):
             m = {'k': 'mod', 'attr': 'lvl%d' % (d - j), 'mid': st.newm(), 'hook': 'True' if rng.random() < 0.9 else rng.choice(HOOKS), 'members': inner}
             st.mods[m['mid']] = m
-            inner = [m]
+            inner = [m] + sibling_mods(rng, st)
         top = {'k': 'mod', 'attr': 'emdverif_deep', 'mid': st.newm(), 'hook': 'True', 'members': inner}
         st.mods[top['mid']] = top
         tops.append(top)
@@ -460,7 +471,7 @@ def gen_e2e(rng):
                 hook = 'True' if bad != j else rng.choice(['absent', 'False', 'str'])
                 m = {'k': 'mod', 'attr': 'lvl%d' % (d - j), 'mid': st.newm(), 'hook': hook, 'members': inner}
                 st.mods[m['mid']] = m
-                inner = [m]
+                inner = [m] + sibling_mods(rng, st)
             top = {'k': 'mod', 'attr': 'emdverif_top0', 'mid': st.newm(), 'hook': 'one' if how == 'top_one' else 'True', 'members': inner}
             st.mods[top['mid']] = top
             tops = [top]
@@ -619,6 +630,27 @@ def run_e2e(sc, scratch):
                         m['cid'] = w.cid_of.get(id(m.pop('cls_obj')))
                 o['nodes'] = {k: strip(v) for k, v in nodes.items()}
                 o['hooks'] = [list(x) for x in LOG]
+                if sc.get('want_regen'):
+                    # C16: what read returned is saved again and read again -- the second generation must equal the first
+                    p2 = p + '.gen2'
+                    try:
+                        with core.quiet():
+                            emd.save(p2, back, mode='o')
+                            back2 = emd.read(p2)
+                        if not isinstance(back2, emd.Root):
+                            back2 = back2.root
+                        nodes2 = {}
+                        observe_node(back2, None, '/root', nodes2, made)
+                        for path, rec in nodes2.items():
+                            rec['cid'] = w.cid_of.get(id(rec['cls_obj']))
+                            for k, m in rec['md'].items():
+                                m['cid'] = w.cid_of.get(id(m.pop('cls_obj')))
+                        o['gen2'] = {k: strip(v) for k, v in nodes2.items()}
+                    except BaseException as e:
+                        o['gen2_exc'] = type(e).__name__ + ': ' + str(e)[:120]
+                    finally:
+                        if os.path.exists(p2):
+                            os.remove(p2)
             except BaseException as e:
                 o['read_exc'] = type(e).__name__ + ': ' + str(e)[:120]
         out['placements'].append(o)
